@@ -876,7 +876,7 @@ func assumptions(sim Sim) []string {
 	a := []string{
 		"a clean batch is evidence over the sampled seeds, not a proof",
 		"bbolt's committed transactions are durable and atomic; faults are injected at the walletdb interface the repository programs against, not below bbolt",
-		"Go map iteration order inside the code under test is not controlled by the seed",
+		"iteration order of Go maps is a function of the seed inside wallet, waddrmgr, wtxmgr and chain/block_filterer.go (range-over-map is rewritten by the instrumenter); inside dependencies (bbolt, btcd libraries) it is still the runtime's",
 	}
 	if x, ok := sim.(interface{ Assumptions() []string }); ok {
 		a = append(a, x.Assumptions()...)
